@@ -154,16 +154,16 @@ void eval_range(Ctx& ctx, int64_t lo, int64_t hi, int what) {
 VK_SUB(low, "exhaustive_low");
 static void low_check(const Json& c, Out& o) { range_check(c, o); }
 static void low_gen(Ctx& ctx) {
-    const int64_t top = ctx.quick() ? (1 << 18) : (1 << 22);
+    const int64_t top = ctx.quick() ? (1 << 20) : (1 << 22);
     const int64_t step = 4096;
     for (int64_t lo = 0; lo <= top; lo += step) {
         if (!ctx.mine()) continue;
         eval_range(ctx, lo, std::min(lo + step - 1, top), 7 | 8);
     }
-    if (ctx.quick()) {   // 64 seed-chosen windows between 2^18 and 2^22
+    if (ctx.quick()) {   // 64 seed-chosen windows between 2^20 and 2^22
         Rng r(mix(ctx.seed, 0xC15));
         for (int k = 0; k < 64; ++k) {
-            int64_t lo = r.range(1 << 18, (1 << 22) - 4096);
+            int64_t lo = r.range(1 << 20, (1 << 22) - 4096);
             if (!ctx.mine()) continue;
             eval_range(ctx, lo, lo + 4095, 7 | 8);
         }
